@@ -423,9 +423,9 @@ Qed.
 
 (* THE STATEMENT: at every budget of value passes and degree passes the mirror
    completes normally *)
-Theorem propagate_completes kv kd c :
+Theorem propagate_completes kv kd idom c :
   clean_cfg c = true -> ldefs_unique (all_stmts (c_blocks c)) = true ->
-  exists c', propagate kv kd p c = Ok c'.
+  exists c', propagate kv kd p idom c = Ok c'.
 Proof.
   intros Hclean Hu. unfold propagate.
   assert (Hc : Forall cstmt (all_stmts (c_blocks c))).
@@ -433,6 +433,6 @@ Proof.
   assert (He : cenv []) by (intros v; apply cv_none).
   destruct (values_passes_tot kv [] (c_blocks c) (ldefs_unique_uniq _ Hu) (clean_Inv p _ Hclean) He Hc) as (bs1 & env1 & E).
   rewrite E. cbn [bind].
-  destruct (degrees_passes kd (denv_init (c_kind c) (c_params c)) bs1) as [bs2 env2]. eexists. reflexivity.
+  destruct (degrees_passes kd idom (denv_init (c_kind c) (c_params c)) bs1) as [bs2 env2]. eexists. reflexivity.
 Qed.
 End Total.
